@@ -169,7 +169,8 @@ example : aliasName 404 = "NotFoundError".toList ∧ aliasName 501 = "HttpNotImp
     bundled transport    : never returns, status + response attached                        (full, `never_returns_non2xx_bundled`)
     bundled transport    : 4xx ↦ `ClientError`, 5xx ↦ `ServerError`                         (full, `bundled_class_by_range`)
     pass-through, declared 4xx/5xx : the status-specific alias, whose base is by range      (full, `passthrough_declared_error_class`)
-    pass-through, undeclared 4xx/5xx : ClientError / ServerError                            ✗ (`passthrough_undeclared_raises_base_counterexample`)
+    pass-through, undeclared status : the class of its range (F15 repaired)                 (partial: no `default` response with content,
+                                                                                             `passthrough_undeclared_class_by_range_partial`)
     pass-through, `default` response with content : raises at all                           ✗ (`default_with_content_returns_for_error_status_counterexample`)
 -/
 section behaviour
@@ -285,21 +286,46 @@ example : moduleOk exDeclared = true ∧ (∃ x ∈ exDeclared.responses, x.key 
     handle .passthrough exDeclared ⟨503, none⟩ = .raised (.alias 503) 503 true .aliasArm := by
   decide +kernel
 
-/-- ✗ C06 for a pass-through transport and an UNDECLARED error status: the catch-all arm raises the BASE
-    `HTTPError` ("Unhandled status code"), which is neither a `ClientError` (404) nor a `ServerError` (500). -/
-theorem passthrough_undeclared_raises_base_counterexample :
-    handle .passthrough exDeclared ⟨409, none⟩ = .raised .httpError 409 true .unhandledArm ∧
-    ExcCls.httpError.isClient = false ∧
-    handle .passthrough exDeclared ⟨500, none⟩ = .raised .httpError 500 true .unhandledArm ∧
-    ExcCls.httpError.isServer = false := by
+/-- The class chosen by the `case _:` arms of the emitted `match` (`_write_raise_by_status_range`): `ClientError` for 400-499,
+    `ServerError` for 500-599, the base `HTTPError` for everything else. -/
+theorem rangeClass_by_range (s : Nat) :
+    (400 ≤ s ∧ s < 500 → rangeClass s = .clientError ∧ (rangeClass s).isClient = true) ∧
+    (500 ≤ s ∧ s < 600 → rangeClass s = .serverError ∧ (rangeClass s).isServer = true) ∧
+    (s < 400 ∨ 600 ≤ s → rangeClass s = .httpError) := by
+  refine ⟨?_, ?_, ?_⟩
+  · intro h
+    simp [rangeClass, h, ExcCls.isClient]
+  · intro h
+    have h1 : ¬ (400 ≤ s ∧ s < 500) := by omega
+    simp [rangeClass, h, h1, ExcCls.isServer]
+  · intro h
+    have h1 : ¬ (400 ≤ s ∧ s < 500) := by omega
+    have h2 : ¬ (500 ≤ s ∧ s < 600) := by omega
+    simp [rangeClass, h1, h2]
+
+/-- The arms of the emitted `match` choose the class exactly as the bundled transport does. -/
+theorem rangeClass_eq_bundledClass (s : Nat) : rangeClass s = bundledClass s := rfl
+
+/-- The former witness of F15 (pass-through transport, UNDECLARED error status; the catch-all arm raised the BASE
+    `HTTPError` for 409 and 500): the catch-all now raises `ClientError` for 409, `ServerError` for 500 and the base
+    class for 302, "Unhandled status code" each time. -/
+theorem passthrough_undeclared_former_witness :
+    handle .passthrough exDeclared ⟨409, none⟩ = .raised .clientError 409 true .unhandledArm ∧
+    ExcCls.clientError.isClient = true ∧
+    handle .passthrough exDeclared ⟨500, none⟩ = .raised .serverError 500 true .unhandledArm ∧
+    ExcCls.serverError.isServer = true ∧
+    handle .passthrough exDeclared ⟨302, none⟩ = .raised .httpError 302 true .unhandledArm := by
   decide +kernel
 
-/-- The general shape of that defect: with a pass-through transport, a 4xx/5xx status for which the
-    operation declares no numeric response and no `default` response always raises the base class. -/
-theorem passthrough_undeclared_raises_base (op : Op) (r : Reply) (hm : moduleOk op = true)
+/-- Pass-through transport, a status for which the operation declares no numeric response: the `case _:` arm raises the
+    class of the status' range with the status and the response - "Default error" when a `default` response is declared,
+    "Unhandled status code" otherwise.
+    PARTIAL: `hdef` excludes the `default` response WITH content (F40: that arm returns). -/
+theorem passthrough_undeclared_class_by_range_partial (op : Op) (r : Reply) (hm : moduleOk op = true)
     (hu : ∀ x ∈ op.responses, x.key.code? ≠ some r.status)
-    (hdef : ∀ x ∈ op.responses, x.key.isDefault = false) :
-    handle .passthrough op r = .raised .httpError r.status true .unhandledArm := by
+    (hdef : defaultAction op.responses ≠ .retStrategy) :
+    handle .passthrough op r = .raised (rangeClass r.status) r.status true
+      (if op.responses.any (fun x => x.key.isDefault) then .defaultArm else .unhandledArm) := by
   have hnone : (arms op.responses).find? (fun a => a.1 == r.status) = none := by
     apply find_arm_none
     intro a ha has
@@ -312,18 +338,38 @@ theorem passthrough_undeclared_raises_base (op : Op) (r : Reply) (hm : moduleOk 
       have := hu y (otherResponses_sub hy)
       rw [hyk, has] at this
       exact this rfl
-  have hd : defaultAction op.responses = .raiseUnhandled := by
-    unfold defaultAction
-    have : op.responses.find? (fun r => r.key.isDefault) = none := by
-      rw [List.find?_eq_none]
-      intro x hx
-      simp [hdef x hx]
-    rw [this]
   unfold handle
   simp only [hm, Bool.not_true, Bool.false_eq_true, if_false]
   unfold selectAction
-  rw [hnone, hd]
-  rfl
+  rw [hnone]
+  simp only
+  unfold defaultAction at hdef ⊢
+  cases hf : op.responses.find? (fun r => r.key.isDefault) with
+  | none =>
+    have hany : op.responses.any (fun x => x.key.isDefault) = false := by
+      rw [List.any_eq_false]
+      intro x hx
+      have := List.find?_eq_none.mp hf x hx
+      simpa using this
+    simp [hany, runAction]
+  | some d =>
+    have hany : op.responses.any (fun x => x.key.isDefault) = true := by
+      rw [List.any_eq_true]
+      exact ⟨d, List.mem_of_find?_eq_some hf, List.find?_some (p := fun r : Resp => r.key.isDefault) hf⟩
+    rw [hf] at hdef
+    simp only at hdef
+    split at hdef
+    · exact absurd rfl hdef
+    · next hc => simp [hany, hc, runAction]
+
+/-- The hypotheses of `passthrough_undeclared_class_by_range_partial` are satisfiable, with and without a `default` response. -/
+example :
+    let op : Op := ⟨"GET".toList, [.lit "/a".toList], [], none, [⟨.num 200, []⟩, ⟨.num 404, []⟩, ⟨.default, []⟩]⟩
+    moduleOk op = true ∧ (∀ x ∈ op.responses, x.key.code? ≠ some 503) ∧ defaultAction op.responses ≠ .retStrategy ∧
+    handle .passthrough op ⟨503, none⟩ = .raised .serverError 503 true .defaultArm ∧
+    moduleOk exDeclared = true ∧ (∀ x ∈ exDeclared.responses, x.key.code? ≠ some 409) ∧
+    defaultAction exDeclared.responses ≠ .retStrategy := by
+  decide +kernel
 
 /-- An operation with a `default` response that has content. -/
 def exDefaultContent : Op :=
